@@ -617,7 +617,7 @@ func runC13(c *explore.Ctx) {
 	// the state graph is one connected search; it is partitioned over workers by the first operation
 	e, err := newC13Env(c.Thorough())
 	if err != nil {
-		c.R.Error = "C13 environment: " + err.Error()
+		envFail(c, "C13 environment: "+err.Error())
 		return
 	}
 	scope := "REUSE"
